@@ -136,8 +136,9 @@ theorem filterMapped_is_scan (sk : AnySkel) (hf : sk.onFalse = .none_) (ht : sk.
     missing (`NoMatcherFunction` at that index) or panics. -/
 theorem C01_source_scan_is_model_scan (ps : List (Pattern α ρ)) (a : α) :
     Generated.anySkel.run (ps.map fun p => ofTry (tryPat p a)) = selOfScan (scan ps a 0) := by
-  have hc : (Generated.anySkel.overCallPatterns ∧ Generated.anySkel.reporterNone ∧ Generated.anySkel.errMapsOwnIndex ∧
-      Generated.anySkel.adaptors = [.iter, .enumerate, .filterMap, .next, .transpose, .mapErr]) := by decide
+  have hc : (Generated.anySkel.overCallPatterns ∧ Generated.anySkel.errMapsOwnIndex ∧
+      (Generated.anySkel.adaptors = [.iter, .enumerate, .filterMap, .next, .transpose, .mapErr] ∨
+       Generated.anySkel.adaptors = [.iter, .enumerate, .forReturn])) := by decide
   unfold AnySkel.run
   rw [if_pos hc]
   exact filterMapped_is_scan _ (by decide) (by decide) (by decide) ps a 0
